@@ -3,7 +3,7 @@ from core import Property
 VMAX = 2 ** 62 - 1
 WINS = [1, 2, 3, 5, 7, 16, 61, 100, 1000, 4096, 10000, 65536, 1 << 20]
 CODES = [0, 1, 63, 64, 256, 258, 268, 16383, 16384, 2 ** 30 - 1, 2 ** 30, 2 ** 32 + 5, VMAX - 1, VMAX]
-TIMING_QW = ('stop', 'close', 'timeout', 'areset', 'lclose', 'cfin')
+TIMING_QW = ('stop', 'close', 'timeout', 'areset', 'lclose')
 
 
 def kv(case):
@@ -70,7 +70,7 @@ class P(Property):
             '0..20 earlier streams so that ids vary.  qw: 1..6 DATA frames with payloads 0..64 KiB quick / 0..256 KiB thorough in 1..4 '
             'chunks, peer stream window and connection window from 1 byte to 1 MiB (partial writes forced whenever the data exceeds the '
             'window), peer read sizes 1 byte..64 KiB, a second send_data attempted right after the first and/or at the first Pending of '
-            'poll_ready, every kind of WriteBuf (DATA, HEADERS, stream type + DATA, stream type alone), raw bytes (0..64 KiB quick / 256 KiB thorough, 1 or 3 chunks) through poll_send afterwards - also with the peer stopping / closing / falling silent while poll_send is blocked -, poll_send attempted while a framed buffer is half written (must be refused), the pending write abandoned and the stream finished (cfin), streams opened and connections closed through Connection itself, the opener() handle or a clone of it, send_id queried before/after send_data, while a write is pending, after completion, after finish; faults at '
+            'poll_ready, every kind of WriteBuf (DATA, HEADERS, stream type + DATA, stream type alone), raw bytes (0..64 KiB quick / 256 KiB thorough, 1 or 3 chunks) through poll_send afterwards - also with the peer stopping / closing / falling silent while poll_send is blocked -, poll_send attempted while a framed buffer is half written (must be refused), the pending write abandoned and the stream finished (cfin: everything accepted must still arrive, trunc=no), streams opened and connections closed through Connection itself, the opener() handle or a clone of it, send_id queried before/after send_data, while a write is pending, after completion, after finish; faults at '
             'seeded offsets: peer STOP_SENDING(code), peer close(code), peer silent until the idle timeout, write after finish, local reset(code up to 2^64-1), local close(code). '
             'qr: peer writes 1..5 chunks; recv_id queried on a fresh stream, WHILE a read is pending, after that read was cancelled, after a '
             'deferred stop, after data, at the end; stop_sending issued while idle / while the read future owns the stream (once or twice); '
